@@ -7,7 +7,7 @@ from unittest import mock
 
 from hypothesis import strategies as st
 
-from vf.api import Expect, Kind, check, ok, trivial, violation
+from vf.api import Expect, Kind, ok, trivial, violation
 from vf.lib import c04_crash as cc
 from vf.seam import ft
 
@@ -17,7 +17,7 @@ TECHNIQUE = ("transport-seam crash-point enumeration: every prefix of the "
              "mutating transport operations of commit / fetch / autopack / "
              "pack, plus truncated non-atomic writes; reopen-and-read oracle "
              "against an independent model of every revision")
-RULE = ("A scenario (one Hypothesis case) = format in {2a, pack-0.92}, 0-12 "
+RULE = ("A scenario (one Hypothesis case) = format in {2a, pack-0.92}, 0-10 "
         "(thorough 0-25) existing packs with generated revision counts chosen "
         "so that the next write group does or does not autopack, optional real "
         "earlier pack() (populated obsolete_packs/), optional junk files and an "
@@ -27,7 +27,10 @@ RULE = ("A scenario (one Hypothesis case) = format in {2a, pack-0.92}, 0-12 "
         "state is enumerated: the state after the first k mutating operations "
         "for k = 0..n (crash after op k and crash before op k+1 are the same "
         "disk state, enumerated once) and, for every stream write / non-atomic "
-        "put, the state with that write truncated (1 prefix quick, 3 thorough). "
+        "put, the state with that write truncated (1 prefix quick, 3 thorough; "
+        "for a non-atomic put also the emptied file). After every crash state a "
+        "recovery operation runs (a fresh commit, or a retry of the same "
+        "operation) and the result is verified again. "
         "evaluations = crash states. Non-trivial = crash at or after an "
         "operation on pack-names, packs/, indices/ or obsolete_packs/; counted "
         "per (scenario, k, truncation).")
@@ -109,12 +112,24 @@ def _crash(run, src, dst, k, when, partial, expect_op):
     return c
 
 
-def _partials(size, tier):
-    if not size or size < 2:
-        return []
-    if tier == "quick":
-        return [size // 2]
-    return sorted({1, size // 2, size - 1})
+def _partials(name, size, tier):
+    """Bytes kept by a truncated non-atomic operation.  A non-atomic put
+    replaces the file, so 'nothing written yet' (0 bytes, old content gone)
+    is a state of its own; for stream writes / appends 0 bytes is the same
+    state as crashing before the operation."""
+    puts = name.startswith("put_")
+    if size is None:
+        # the seam does not know the length of a file-like source
+        out = {1} if tier == "quick" else {1, 64}
+    elif size < 2:
+        out = set()
+    elif tier == "quick":
+        out = {size // 2}
+    else:
+        out = {1, size // 2, size - 1}
+    if puts:
+        out.add(0)
+    return sorted(out)
 
 
 def run(case, env):
@@ -182,8 +197,8 @@ def _run(case, env):
         for k in range(n + 1):
             points = [("before", None)] if k < n else [("done", None)]
             if k < n and log[k][1] in ft.NON_ATOMIC:
-                points += [("partial", p) for p in _partials(log[k][3],
-                                                             env.tier)]
+                points += [("partial", p) for p in _partials(
+                    log[k][1], log[k][3], env.tier)]
             if k < n and cc.touches_pack_state(log[k][1], log[k][2]):
                 touched = True
             for when, part in points:
@@ -271,8 +286,8 @@ def _opspec(draw):
 
 @st.composite
 def scenario(draw, tier):
-    maxp = 12 if tier == "quick" else 25
-    maxt = 34 if tier == "quick" else 80
+    maxp = 10 if tier == "quick" else 25
+    maxt = 30 if tier == "quick" else 80
     fmt = draw(st.sampled_from(FORMATS))
     op = _opspec(draw)
     npacks = draw(st.integers(0, maxp))
@@ -319,6 +334,6 @@ MINIMAL = {"format": "2a", "op": {"op": "commit"}, "packs": [],
 def kinds(tier):
     return [
         Kind("crash-enumeration", run, strategy=scenario(tier),
-             examples={"quick": 24, "thorough": 400},
+             examples={"quick": 24, "thorough": 500},
              shrink_s={"quick": 60, "thorough": 600}),
     ]
